@@ -107,7 +107,9 @@ func (c *Ctx) Exception(key string, pos token.Pos, format string, args ...any) {
 	c.add(true, "exception", key, pos, format, args...)
 }
 
-func (c *Ctx) Note(format string, args ...any) { c.Notes = append(c.Notes, fmt.Sprintf(format, args...)) }
+func (c *Ctx) Note(format string, args ...any) {
+	c.Notes = append(c.Notes, fmt.Sprintf(format, args...))
+}
 
 // Finding is an entry of known_findings.json.
 type Finding struct {
